@@ -1704,7 +1704,12 @@ lop_parity_check		(cache_page *		cvtp,
 				{
 					unsigned int column = trip->address;
 					unsigned int c = rvtp->lop_raw[row][column];
-					rvtp->lop_raw[row][column] = vbi_par8 (c);
+					/* A fallback character, not a spacing
+					   attribute: those never have even parity
+					   on purpose, and accepting a damaged one
+					   would alter the rest of the row. */
+					if ((c & 0x7F) >= 0x20)
+						rvtp->lop_raw[row][column] = vbi_par8 (c);
 					break;
 				}
 				default:
